@@ -423,6 +423,25 @@ AST_QUERIES = [
     ("parallel algorithm (execution policy argument)", "hard",
      'callExpr(hasArgument(0, hasType(hasUnqualifiedDesugaredType(recordType(hasDeclaration(cxxRecordDecl('
      'matchesName("::std::execution::.*policy"))))))), unless(isExpansionInSystemHeader()))'),
+    # C07-m8 family: the iteration order of a hash container is a function of its bucket array, which clear() keeps
+    # and which only grows – a container that outlives one call (static, thread_local, data member) iterates in an
+    # order that depends on the history of the thread / object.  Any declaration of such a type is listed.
+    ("hash container (iteration order depends on the history of its bucket array)", "hard",
+     'declaratorDecl(hasType(qualType(hasCanonicalType(anyOf(qualType(hasDeclaration(classTemplateSpecializationDecl('
+     'hasAnyName("::std::unordered_map", "::std::unordered_set", "::std::unordered_multimap", "::std::unordered_multiset")))), '
+     'referenceType(pointee(hasDeclaration(classTemplateSpecializationDecl(hasAnyName("::std::unordered_map", '
+     '"::std::unordered_set", "::std::unordered_multimap", "::std::unordered_multiset"))))))))), '
+     'unless(isExpansionInSystemHeader()), unless(isExpansionInFileMatching("/harness/|/third_party/")))'),
+    # C07-m7 family: a constructor that gives a scalar data member (arithmetic, enumeration, pointer) neither a member
+    # initialiser nor a default member initialiser: `T x;` leaves it indeterminate, and whatever is not serialised keeps
+    # that value after `T x; x.load(...)`.  `= default` constructors here; user-provided ones (bodies included) are
+    # clang-tidy's cppcoreguidelines-pro-type-member-init below – both lists are hard.
+    ("`= default` constructor leaves a scalar data member without initialiser", "hard",
+     'cxxConstructorDecl(isDefaulted(), unless(isImplicit()), '
+     'unless(isCopyConstructor()), unless(isMoveConstructor()), ofClass(cxxRecordDecl(forEach(fieldDecl('
+     'unless(hasInClassInitializer(anything())), hasType(qualType(anyOf(isInteger(), realFloatingPointType(), '
+     'hasCanonicalType(enumType()), hasCanonicalType(pointerType()))))).bind("f")))), unless(hasAnyConstructorInitializer(forField(equalsBoundNode("f")))), '
+     'unless(isExpansionInSystemHeader()), unless(isExpansionInFileMatching("/harness/|/third_party/")))'),
     ("randomness / time / process identity outside random::engine", "hard",
      'expr(anyOf(callExpr(callee(functionDecl(hasAnyName("::rand", "::srand", "::random", "::drand48", "::time", "::clock", '
      '"::getpid", "::gettimeofday", "::clock_gettime", "::std::rand", "::std::srand", "::std::time", "::std::clock")))), '
@@ -468,6 +487,12 @@ AST_REVIEWED = {
     ("mutable object with static or thread storage duration", "kernel/evolution.tcc", "static unsigned last_run(0);"):
         "log_evolution(): decides whether a blank line separates runs in the statistics files – formatting of a log, "
         "and the transcripts include those files",
+    ("`= default` constructor leaves a scalar data member without initialiser", "kernel/individual.h",
+     "individual() = default; // unsigned age_;"):
+        "protected constructor of the CRTP base: every derived constructor names `individual()` in its initialiser list "
+        "(value-initialisation: age_ = 0) except i_ga() / i_de() = default, whose objects are either value-initialised "
+        "(`T()`, summary, vector(n)) or `T ind; ind.load(...)` – individual::load assigns age_ (serialised) before any "
+        "read; the checkpoint / restart chains run ga / de under valgrind and a painted stack",
     ("pointer-keyed associative container", "kernel/analyzer.h",
      "std::map<const symbol *, sym_counter, cmp_symbol_ptr> sym_counter_;"):
         "ordered by cmp_symbol_ptr = opcode order, not by address",
@@ -534,9 +559,17 @@ def ast_scan():
         return [], [], "clang-query failed on the scan translation unit (rc=%d): %s" % (rc, (se + so)[-800:])
     hits, qi, lines = [], 0, so.splitlines()
     seen = set()
+    field = None
     for i, ln in enumerate(lines):
         if re.match(r"^\d+ match(?:es)?\.$", ln):
             qi += 1
+            continue
+        if ln.startswith("Match #"):
+            field = None
+            continue
+        m = re.match(r"^(/.*?):(\d+):(\d+): note: \"f\" binds here", ln)
+        if m:
+            field = norm_ws(lines[i + 1]) if i + 1 < len(lines) else ""
             continue
         m = re.match(r"^(/.*?):(\d+):(\d+): note: \"root\" binds here", ln)
         if m and qi < len(AST_QUERIES):
@@ -544,11 +577,13 @@ def ast_scan():
             path = m.group(1)
             rel = path[len(src_root):] if path.startswith(src_root) else path
             text = norm_ws(lines[i + 1]) if i + 1 < len(lines) else ""
+            if field is not None:
+                text += " // " + field
             key = (tag, rel, text)
             if (key, int(m.group(2))) in seen:      # one declaration, several template instantiations
                 continue
             seen.add((key, int(m.group(2))))
-            hits.append({"what": tag, "severity": sev, "file": rel, "line": int(m.group(2)), "text": text[:160],
+            hits.append({"what": tag, "severity": sev, "file": rel, "line": int(m.group(2)), "text": text[:200],
                          "reviewed": AST_REVIEWED.get(key)})
     try:
         rc, so, se = C.sh(["clang-tidy-14", "-checks=-*,cppcoreguidelines-pro-type-member-init",
@@ -669,8 +704,12 @@ def clock_scan():
 # configuration = <kind>-<strategy>[-<validation>]; see harness/c07_run.cc
 CONFIGS = ["mep-std", "mep-alps", "mep-std-dss", "mep-std-holdout", "mep-alps-dss", "cls-std", "cls-alps",
            "team-std", "team-alps", "team-std-holdout", "ga-std", "ga-alps", "de"]
-REPEATABLE = {"ga-std", "ga-alps", "de"}     # i_mep dumps contain opcodes, which are numbered by a
-                                             # process-wide counter: an in-process second problem is renamed
+REPEATABLE = {"ga-std", "ga-alps", "de"}     # the configurations with a fitness FUNCTION (stall-eval applies)
+# in-process repetition (`repeat:<k>`) applies to EVERY configuration: i_mep dumps contain opcodes (numbered by a
+# process-wide counter, an in-process second problem is renamed), so the harness compares canonical transcripts
+# (symbols by name).  Checkpoint / restart needs a run without validation strategy (one evolution, fixed data).
+CKPT_CONFIGS = ["mep-std", "mep-alps", "cls-std", "cls-alps", "team-std", "team-alps", "ga-std", "ga-alps", "de"]
+VALGRIND = ["valgrind", "-q", "--error-exitcode=99", "--track-origins=yes"]
 STALL_MS = 2300
 WORK = os.path.join(C.BUILD, "c07_work")
 
@@ -735,30 +774,40 @@ def params_token(p, ser=None, logs=None):
 class Proc:
     """one process of the plan; `chain` = processes that must run one after the other (cold, warm, …)"""
 
-    def __init__(self, key, build, exe, noise, mode, env, params, role, ser=None, logs=None):
+    def __init__(self, key, build, exe, noise, mode, env, params, role, ser=None, logs=None, ckpt=None,
+                 valgrind=False):
         self.key, self.build, self.exe, self.noise, self.mode, self.env = key, build, exe, noise, mode, env
         self.params, self.role, self.ser, self.logs = params, role, ser, logs
+        self.ckpt, self.valgrind = ckpt, valgrind      # checkpoint file (`@CKPT@` in the mode), run under valgrind
         self.rc = self.out = self.err = None
         self.timed_out = False
 
-    def argv(self, ser=None, logs=None):
+    def argv(self, ser=None, logs=None, ckpt=None):
         cfg, seed, gens, inds, _ = self.key
-        return [cfg, seed, gens, inds, self.noise, self.mode,
+        return [cfg, seed, gens, inds, self.noise, self.mode.replace("@CKPT@", ckpt or self.ckpt or "@CKPT@"),
                 params_token(self.params, ser or self.ser, logs or self.logs)]
 
     def describe(self):
         """command line with the scratch paths as placeholders (the replay file recreates them)"""
-        return " ".join(str(x) for x in self.argv("@SER@" if self.ser else None, "@LOGS@" if self.logs else None))
+        return " ".join(str(x) for x in self.argv("@SER@" if self.ser else None, "@LOGS@" if self.logs else None,
+                                                  "@CKPT@"))
 
     def step(self):
-        return {"args": self.describe(), "env": self.env, "build": self.build, "role": self.role}
+        st = {"args": self.describe(), "env": self.env, "build": self.build, "role": self.role}
+        if self.valgrind:
+            st["valgrind"] = True
+        return st
 
 
 def run_proc(p, timeout):
     if p.logs:
         os.makedirs(p.logs, exist_ok=True)
     try:
-        p.rc, p.out, p.err = C.run_harness(p.exe, p.argv(), timeout=timeout, env=p.env)
+        if p.valgrind:
+            p.rc, p.out, p.err = C.run_harness(VALGRIND[0], VALGRIND[1:] + [p.exe] + p.argv(), timeout=max(timeout, 1800),
+                                               env=p.env)
+        else:
+            p.rc, p.out, p.err = C.run_harness(p.exe, p.argv(), timeout=timeout, env=p.env)
         p.timed_out = False
     except Exception as e:  # subprocess.TimeoutExpired
         p.rc, p.out, p.err, p.timed_out = 124, "", repr(e)[:300], True
@@ -813,7 +862,9 @@ def transcripts(chk, rng, broken):
 
             for bname, bexe in exes:
                 # (1) same arguments, different heap layouts / allocator behaviour / environment sizes
-                chains.append([mk(bname, bexe, 0, "repeat" if cfg in REPEATABLE and not with_logs else "-", {},
+                # (the reference also repeats the execution IN THIS PROCESS after other work – every configuration;
+                #  not with statistics files: the second execution would need a second, empty directory)
+                chains.append([mk(bname, bexe, 0, "-" if with_logs else "repeat:%d" % rng.below(1 << 30), {},
                                   "reference")])
                 chains.append([mk(bname, bexe, rng.next() | 1, "-",
                                   {"MALLOC_PERTURB_": str(rng.between(1, 255)), "VERIF_PAD": "x" * rng.between(1, 5000)},
@@ -844,6 +895,51 @@ def transcripts(chk, rng, broken):
                     chains.append([mk("plain", exe, 0, "stall-eval:%d:%d" % (m, STALL_MS), {}, "stalled")])
                     nstall += 1
 
+    # (4) IN-PROCESS repetition only: longer runs, bigger populations (cheap: one process each)
+    nrepeat_only = 0
+    for cfg in CONFIGS:
+        for _ in range(2 if quick else 6):
+            seed, gens, inds = rng.below(1 << 31), rng.between(8, 13), rng.between(24, 41)
+            params = gen_params(rng, cfg, inds, gens)
+            key = (cfg, seed, gens, inds, params_token(params) + ",repeat-only")
+            chains.append([Proc(key, "plain", exe, rng.next() | 1 if rng.chance(0.5) else 0,
+                                "repeat:%d" % rng.below(1 << 30), {}, params, "repeat-only")])
+            nrepeat_only += 1
+    # (5) CHECKPOINT / RESTART: population + summary + random::engine saved after generation g (`ckpt-save`), then
+    #     restored into fresh objects by several processes that differ in dead stack content, heap noise and
+    #     previous work (`ckpt-load`); some of the restarts under valgrind (uninitialised reads)
+    ckpt_chains, nvalgrind = [], 0
+    have_valgrind = shutil.which(VALGRIND[0]) is not None
+    vg_kinds = set()
+    for cfg in CKPT_CONFIGS:
+        for _ in range(1 if quick else 4):
+            seed, gens, inds = rng.below(1 << 31), rng.between(4, 9) if quick else rng.between(4, 16), rng.between(10, 31)
+            params = gen_params(rng, cfg, inds, gens)
+            for k in ("stuck", "thr", "runs"):      # one evolution; its stop condition reads the analyzer, which a
+                params.pop(k, None)                 # checkpoint does not contain (recomputed every generation)
+            g = rng.between(0, gens)
+            key = (cfg, seed, gens, inds, params_token(params) + ",ckpt=%d" % g)
+            f = scratch("ckpt") + ".txt"
+
+            def ck(noise, mode, env, role, valgrind=False):
+                return Proc(key, "plain", exe, noise, mode, env, params, role, ckpt=f, valgrind=valgrind)
+
+            chain = [ck(0, "ckpt-save:%d:@CKPT@" % g, {}, "ckpt-save"),
+                     ck(0, "ckpt-load:0:0:@CKPT@", {}, "ckpt-load"),
+                     ck(rng.next() | 1, "ckpt-load:165:0:@CKPT@", {"MALLOC_PERTURB_": str(rng.between(1, 255))}, "ckpt-load"),
+                     ck(rng.next() | 1, "ckpt-load:%d:1:@CKPT@" % (256 + rng.below(1 << 30)),
+                        {"MALLOC_PERTURB_": str(rng.between(1, 255)), "VERIF_PAD": "x" * rng.between(1, 5000)},
+                        "ckpt-load")]
+            kind = cfg.split("-")[0]
+            if have_valgrind and (not quick or kind not in vg_kinds):
+                vg_kinds.add(kind)
+                chain.append(ck(0, "ckpt-load:%d:0:@CKPT@" % rng.below(256), {}, "ckpt-load-valgrind", valgrind=True))
+                nvalgrind += 1
+            for q in chain:
+                q.ckpt_gen = g
+            chains.append(chain)
+            ckpt_chains.append(chain)
+
     def run_chain(chain):
         for p in chain:
             run_proc(p, 300)
@@ -868,8 +964,14 @@ def transcripts(chk, rng, broken):
             p.chain, p.pos = chain, i
             chk.count("run:" + p.key[0])
             chk.count("role:" + p.role)
-            chk.seen(("run", p.key, p.build, p.role, p.noise, tuple(sorted(p.env))))
-            groups.setdefault(p.key, []).append(p)
+            chk.seen(("run", p.key, p.build, p.role, p.noise, p.mode, tuple(sorted(p.env))))
+            if not p.role.startswith("ckpt"):
+                groups.setdefault(p.key, []).append(p)
+    ck_stats = judge_checkpoints(chk, ckpt_chains, broken)
+    ck_stats["restarts_under_valgrind"] = nvalgrind
+    if not have_valgrind:
+        chk.notes.append("valgrind is not installed: the restarts were not searched for uninitialised reads")
+    chk.cov["checkpoint_restart"] = ck_stats
 
     def replay_of(a, b):
         """steps that reproduce processes a and b (with the executions that must precede them)"""
@@ -887,7 +989,7 @@ def transcripts(chk, rng, broken):
         return {"steps": steps, "compare": [ia, len(steps) - 1]}
 
     ngen = nwarm_loaded = 0
-    neffective = [0]
+    neffective, nrepeat = [0], [0]
     for key, procs in groups.items():
         cfg = key[0]
         live = []
@@ -933,12 +1035,21 @@ def transcripts(chk, rng, broken):
         for p in ok:
             main, _, rep = p.out.partition("REPEAT ")
             mains[id(p)] = main
+            if rep:
+                chk.count("in-process-repeat:" + cfg)
+                nrepeat[0] += 1
             if rep and not rep.startswith("same"):
-                i, x, y = first_diff(main, rep.split("SECOND\n", 1)[-1])
-                chk.violation("same seed, two runs in ONE process differ: `%s` – first differing transcript line %d:\n"
+                first, _, second = rep.partition("FIRST\n")[2].partition("SECOND\n")
+                i, x, y = first_diff(first, second)
+                chk.violation("same seed, problem, data and parameters: the execution performed twice in ONE process "
+                              "(problem rebuilt from scratch, other work in between; transcripts compared with symbols "
+                              "by NAME) differs: `%s` – first differing line %d of the canonical transcript:\n"
                               "  1st: %s\n  2nd: %s" % (p.describe(), i, x, y),
                               {"steps": [p.step()], "compare": [0, 0]},
-                              tags={"kind": "run", "config": cfg, "clause": "in-process-repeat"})
+                              tags={"kind": "run", "config": cfg, "clause": "in-process-repeat",
+                                    # DSS with the evaluation cache on: see known_findings.d/C07.json
+                                    "path": "dss+cache" if "dss" in cfg and str(p.params.get("cache", 16)) != "0"
+                                    else "-"})
             if "GEN " not in main or "FINAL" not in main:
                 broken.append("whole-run harness printed no transcript for `%s`: %s"
                               % (p.describe(), (p.out + p.err)[-300:]))
@@ -971,6 +1082,10 @@ def transcripts(chk, rng, broken):
     chk.cov["timing_perturbation"] = {"stalled_processes": nstall, "effective": neffective[0], "stall_ms": STALL_MS,
                                       "configurations": sorted(stall_cfgs)}
     chk.cov["cold_warm"] = {"chains": ncold, "warm_executions_that_loaded_the_previous_cache": nwarm_loaded}
+    chk.cov["in_process_repetition"] = {"executions_repeated_in_process": nrepeat[0], "repeat_only_jobs": nrepeat_only,
+                                        "compared": "canonical transcripts (symbols by name, no opcode)",
+                                        "between_the_two": "heap noise, 1-3 extra problems (symbols), six searches over "
+                                                           "bigger programs (mep, team, cls, ga, de), painted stack"}
     chk.cov["whole_runs"] = {"configurations": CONFIGS, "processes": sum(len(c) for c in chains),
                              "groups": len(groups), "generations_compared": ngen, "builds": [b for b, _ in exes],
                              "chains_rerun_after_a_timeout": ntimeout}
@@ -987,6 +1102,115 @@ def transcripts(chk, rng, broken):
     shutil.rmtree(work, ignore_errors=True)
 
 
+def ckpt_tail(out, g):
+    """the part of an uninterrupted transcript that follows generation g"""
+    m = re.search(r"^GEN %d " % (g + 1), out, re.M)
+    return out[m.start():] if m else None
+
+
+def ckpt_fully_serialised(p):
+    """Is the saved state (population, summary, engine) the WHOLE state of the evolution?  i_ga / i_de: yes.
+    i_mep / team<i_mep>: the self-adaptive crossover flavour of an individual is not serialised (a loaded individual
+    has flavour 0), so the continuation legitimately differs from the uninterrupted run – unless no crossover takes
+    place (p_cross = 0)."""
+    kind = p.key[0].split("-")[0]
+    return kind in ("ga", "de") or str(p.params.get("pcross")) == "0"
+
+
+def judge_checkpoints(chk, ckpt_chains, broken):
+    st = {"chains": len(ckpt_chains), "restarts": 0, "restart_pairs_compared": 0, "compared_with_uninterrupted": 0,
+          "mirror_of_evolution_run_agrees": 0}
+
+    def steps(chain, upto):
+        return [dict(r.step(), chain=1) for r in chain[:upto + 1]]
+
+    for chain in ckpt_chains:
+        save, loads = chain[0], chain[1:]
+        cfg = save.key[0]
+        if any(p.timed_out for p in chain):
+            chk.notes.append("checkpoint chain `%s` did not finish within the time limit twice – inconclusive, no verdict "
+                             "drawn from it" % save.describe())
+            chk.count("run-timeout")
+            continue
+        if save.rc != 0 or "CHECKPOINT written" not in (save.err or "") or "GEN " not in save.out:
+            if all(p.rc == save.rc for p in chain) and save.rc not in (0, 3):
+                chk.notes.append("configuration `%s` ends with rc=%d in every execution (deterministic failure – not a "
+                                 "matter of this property)" % (save.describe(), save.rc))
+                chk.count("run-fails-deterministically:" + cfg)
+            else:
+                broken.append("checkpoint harness wrote no checkpoint for `%s` (rc=%s): %s"
+                              % (save.describe(), save.rc, (save.err or "")[-300:]))
+            continue
+        if "MIRROR same" in save.err:
+            st["mirror_of_evolution_run_agrees"] += 1
+        else:
+            broken.append("the harness' mirror of evolution<T, ES>::run (selection / recombination / replacement / "
+                          "after_generation) no longer produces the transcript of the real evolution::run for `%s` – the "
+                          "checkpoint / restart comparison rests on it" % save.describe())
+            continue
+        good = []
+        for p in loads:
+            st["restarts"] += 1
+            if p.valgrind and p.rc == 99:
+                rep = [x for x in (p.err or "").splitlines() if x.startswith("==")]
+                what = next((x.split("== ", 1)[-1] for x in rep if "uninitialised" in x or "Invalid" in x), "valgrind error")
+                where = [x.split("== ", 1)[-1].strip() for x in rep if re.search(r"\b(at|by) 0x", x)][:4]
+                chk.violation("checkpoint / restart: `%s` restores the state `%s` saved after generation %d and continues; "
+                              "under valgrind the continuation READS UNINITIALISED MEMORY – %s: %s – what the restarted run "
+                              "does next depends on data that is not an input of the computation"
+                              % (p.describe(), save.describe(), save.ckpt_gen, what, " <- ".join(where)),
+                              {"steps": steps(chain, p.pos), "compare": [p.pos, p.pos]},
+                              tags={"kind": "run", "config": cfg, "clause": "uninitialised-read"})
+                continue
+            if p.rc != 0 or "CHECKPOINT loaded" not in (p.err or ""):
+                others = [q for q in loads if q is not p and q.rc == 0]
+                if others and p.rc not in (3,):
+                    chk.violation("checkpoint / restart: `%s` (env %s) ends with rc=%d while `%s` completes from the same "
+                                  "checkpoint\n%s" % (p.describe(), sorted(p.env), p.rc, others[0].describe(),
+                                                      (p.err or "")[-1200:]),
+                                  {"steps": steps(chain, max(p.pos, others[0].pos)), "compare": [others[0].pos, p.pos]},
+                                  tags={"kind": "run", "config": cfg, "clause": "died"})
+                else:
+                    broken.append("restart `%s` could not load the checkpoint (rc=%s): %s"
+                                  % (p.describe(), p.rc, (p.err or "")[-300:]))
+                continue
+            good.append(p)
+        if not good:
+            continue
+        ref = good[0]
+        for p in good[1:]:
+            st["restart_pairs_compared"] += 1
+            if p.out != ref.out:
+                i, x, y = first_diff(ref.out, p.out)
+                chk.violation("checkpoint / restart: the same checkpoint (population + summary + random::engine saved by "
+                              "`%s` after generation %d) restored by two processes gives different continuations:\n"
+                              "  A: `%s` (env %s)\n  B: `%s` (env %s%s)\n  (they differ in dead stack content, heap "
+                              "noise and previous work only)\n  first differing line %d:\n  A: %s\n  B: %s"
+                              % (save.describe(), save.ckpt_gen, ref.describe(), sorted(ref.env), p.describe(),
+                                 sorted(p.env), ", under valgrind" if p.valgrind else "", i, x, y),
+                              {"steps": steps(chain, p.pos), "compare": [ref.pos, p.pos]},
+                              tags={"kind": "run", "config": cfg, "clause": "checkpoint-restart"})
+                break
+        else:
+            if ckpt_fully_serialised(save):
+                tail = ckpt_tail(save.out, save.ckpt_gen)
+                st["compared_with_uninterrupted"] += 1
+                chk.count("checkpoint-vs-uninterrupted:" + cfg)
+                if tail is None:
+                    broken.append("no generation %d in the uninterrupted transcript of `%s`"
+                                  % (save.ckpt_gen + 1, save.describe()))
+                elif tail != ref.out:
+                    i, x, y = first_diff(tail, ref.out)
+                    chk.violation("checkpoint / restart: the run restored from the state saved after generation %d does "
+                                  "not continue like the uninterrupted run (the saved population + summary + engine are "
+                                  "the whole state of this evolution):\n  uninterrupted: `%s`\n  restart: `%s`\n  first "
+                                  "differing line %d after generation %d:\n  uninterrupted: %s\n  restart: %s"
+                                  % (save.ckpt_gen, save.describe(), ref.describe(), i, save.ckpt_gen, x, y),
+                                  {"steps": steps(chain, ref.pos), "compare": [0, ref.pos], "tail_after": save.ckpt_gen},
+                                  tags={"kind": "run", "config": cfg, "clause": "checkpoint-vs-uninterrupted"})
+    return st
+
+
 def replay_whole_run(chk, r):
     """re-execute the steps of a whole-run finding in a fresh scratch directory and compare the two marked"""
     import shutil
@@ -996,6 +1220,8 @@ def replay_whole_run(chk, r):
     outs, sers, nlogs = [], {}, 0
     for st in r["steps"]:
         args = st["args"]
+        if "@CKPT@" in args:
+            args = args.replace("@CKPT@", os.path.join(work, "ckpt%s.txt" % st.get("chain")))
         if "@SER@" in args:
             args = args.replace("@SER@", sers.setdefault(st.get("chain"), os.path.join(work, "ser%d.txt" % len(sers))))
         if "@LOGS@" in args:
@@ -1005,14 +1231,20 @@ def replay_whole_run(chk, r):
             args = args.replace("@LOGS@", d)
         bexe = C.build_harness("c07_run", st.get("build", "plain"))
         try:
-            rc, so, se = C.run_harness(bexe, args.split(" "), timeout=1800, env=st.get("env") or None)
+            if st.get("valgrind"):
+                rc, so, se = C.run_harness(VALGRIND[0], VALGRIND[1:] + [bexe] + args.split(" "), timeout=3600,
+                                           env=st.get("env") or None)
+            else:
+                rc, so, se = C.run_harness(bexe, args.split(" "), timeout=1800, env=st.get("env") or None)
         except Exception as e:
             rc, so, se = 124, "", repr(e)
         outs.append((rc, so.replace("STALL-NOT-REACHED\n", "")))
         chk.seen(("replay", st["args"]))
     i, j = r["compare"]
-    bad = outs[i][0] != outs[j][0] or "REPEAT different" in outs[i][1] or \
-        outs[i][1].partition("REPEAT ")[0] != outs[j][1].partition("REPEAT ")[0]
+    a, b = outs[i][1].partition("REPEAT ")[0], outs[j][1].partition("REPEAT ")[0]
+    if "tail_after" in r:
+        a = ckpt_tail(a, r["tail_after"])
+    bad = outs[i][0] != outs[j][0] or outs[i][0] != 0 or "REPEAT different" in outs[i][1] or a != b
     shutil.rmtree(work, ignore_errors=True)
     if bad:
         chk.violation("replayed whole runs still differ / fail: %s" % [s["args"] for s in r["steps"]], r,
@@ -1200,9 +1432,10 @@ def run_(chk, replay=None):
                     chk.notes.append(msg)
         for u in uninit:
             if not u["reviewed"]:
-                chk.notes.append("clang-tidy: src/%s:%d %s – not on the reviewed list (an uninitialised member read by the "
-                                 "evolution would make runs differ; relying on the MALLOC_PERTURB_ transcripts)"
-                                 % (u["file"], u["line"], u["message"]))
+                broken.append("clang-tidy cppcoreguidelines-pro-type-member-init: src/%s:%d %s – not on the reviewed list "
+                              "(checks/c07.py UNINIT_REVIEWED): a default-initialised object (`T x; x.load(...)`) keeps "
+                              "dead stack content in that member unless load / the caller assigns it"
+                              % (u["file"], u["line"], u["message"]))
         sites, blocks = clock_scan()
         chk.cov["clock_sites"] = sites
         chk.cov["clock_controlled_code"] = blocks
@@ -1231,11 +1464,15 @@ def run_(chk, replay=None):
                     "lake env lean <#print axioms for every theorem>",
         rule="generator: one evaluation = one request line (stream / save / load / roundtrip / sup / between / mixed) "
              "answered by the compiled code and by the Lean model, compared verbatim; whole runs: one evaluation = one "
-             "process, transcripts of processes with equal arguments must be byte-identical; distinct = distinct request "
-             "line or distinct (configuration, seed, build, environment)",
+             "process, transcripts of processes with equal arguments must be byte-identical, the two executions of an "
+             "in-process repetition must have identical canonical transcripts, the restarts of one checkpoint identical "
+             "continuations (= the uninterrupted run where the checkpoint is the whole state); distinct = distinct request "
+             "line or distinct (configuration, seed, build, mode, environment)",
         trusted=["Lean 4.33 kernel", "tools/translate_rng.py + cxx2lean.py (clang-14 JSON AST -> operand lists)",
                  "Vita.C07.Model: iostream extraction/insertion of std::uint64_t in the classic locale (no sign, no "
                  "grouping)", "Vita.Common.Rng: UInt64 = std::uint64_t wrap-around arithmetic; libstdc++ 12 "
                  "uniform_int_distribution (Lemire) for sup/between",
                  "whole-run determinism is VALIDATED by transcript comparison (partial), not proved",
+                 "harness/c07_run.cc: canonical (name-based) transcript; mirror of evolution::run for checkpoint / "
+                 "restart (checked against the real run on every chain); valgrind 3.x memcheck",
                  "g++ 12.2, ASan/UBSan, glibc malloc tunables for heap perturbation"])
